@@ -168,6 +168,15 @@ pub struct CteSpec {
     pub derive: bool,
 }
 
+/// name of a CTE: `c1` / `c2`, or (names >= 200, executable DML only) `tt` — a CTE that shadows the table every expression subquery reads
+pub fn cte_name(n: u8) -> &'static str {
+    if n >= 200 {
+        "tt"
+    } else {
+        QUALS[6 + n as usize % 2]
+    }
+}
+
 impl CteSpec {
     /// the column list the CTE must be written with
     pub fn effective_cols(&self) -> Vec<String> {
@@ -492,7 +501,7 @@ fn build_ctes(w: &WithSpec, d: Dialect) -> Vec<CommonTableExpression> {
             cte.query(build_select(&c.query, d));
             cte
         };
-        cte.table_name(al(QUALS[6 + c.name as usize % 2]));
+        cte.table_name(al(cte_name(c.name)));
         if let Some(m) = c.materialized {
             cte.materialized(m);
         }
